@@ -43,7 +43,7 @@ Ltac calc_nth :=
   cbn [nth app].
 
 Lemma header_rt t w h data : rt_target t -> 1 <= w <= 250000000 -> 1 <= h <= 2147483647 ->
-  bmp_header 0 (Some t) (bmp_file_header t w h ++ data)
+  bmp_header false 0 (Some t) (bmp_file_header t w h ++ data)
   = BOk ({| b_w := w; b_h := h; b_bpp := w_bpp t; b_cmap := wcmap t; b_t := t; b_roww := w_roww t w |}, data).
 Proof.
   intros Ht Hw Hh.
